@@ -203,7 +203,7 @@ struct Interp {
         if (!ht_overflowed() && ht_live_count() != 0) {
             char b[200];
             ht_describe(b, sizeof b);
-            if (any_include && ctx.quarantined("include-path-leak")) ctx.excluded("KF-C11-1");
+            if (any_include && ctx.quarantined("include-path-leak") && ht_live_all_cstr_suffix(".cfg")) ctx.excluded("KF-C11-1");   // exactly the known finding: nothing but %include path strings is live
             else ctx.fail("leak", std::string("heap-not-balanced; blocks live after spifconf_free_subsystem(): ") + b + (any_include ? " (includes were used)" : ""));
         }
         ctx.ok();
